@@ -14,6 +14,7 @@ PROPS = "Props/C06.v"
 EXTRACT = "extract/ExC06.v"
 OBLIGATION = "Directory.from_disk"
 CASE_TIMEOUT = 60
+SHRINK_BUDGET = 60
 THEOREMS = ["C06_is_git_tree", "C06_walk_refines", "C06_walk_refines_paths", "C06_listing_order_free", "C06_trailing_slash",
             "C06_trailing_slash_root", "C06_symlink_never_followed", "C06_special_is_empty_file", "C06_exec_bit",
             "C06_perms_table", "C06_satisfiable"]
